@@ -1,0 +1,10 @@
+//go:build !verif
+
+package sniproxy
+
+// verifPoint is a schedule/trace point used by the verification harness;
+// it does nothing in normal builds.
+func verifPoint(string, interface{}) {}
+
+// verifPointN is verifPoint with a name (endpoint registry points).
+func verifPointN(string, string, interface{}) {}
